@@ -767,7 +767,7 @@ class PurityScenario:
 
     def plan(self, tier):
         q, f = {"quick": (2500, 2500), "thorough": (150000, 150000)}[tier]
-        return {"quiet": q, "faults": f, "timeout": 120.0, "budget": 60.0 if tier == "quick" else 3 * 3600.0, "slice": 10}
+        return {"quiet": q, "faults": f, "timeout": 120.0, "budget": 60.0 if tier == "quick" else 3600.0, "slice": 10}
 
     def generate(self, rng, idx, tier, faults):
         tr = gen_c09(rng, idx, tier, faults)
